@@ -43,7 +43,7 @@ CHECKS["C16"] = {
     "text": "For every (len, T>=1): the chunk bounds extracted from dot_f64 satisfy start_0 = 0, end_i = start_(i+1), end_(T-1) = len as polynomial "
             "identities (the chunks tile 0..len exactly once); both operands use the same window; the worker closure captures only &[f64], calls only "
             "slice len/index and f64 arithmetic and returns by value (no unsafe in the crate: schedule-free); handles are joined in spawn order into one accumulator; "
-            "sizes are compared first; T = num_cpus::get() is used unmodified. The function returns the joined sum itself (accumulator from 0.0, written only by the join loop, nothing post-processes it); the sequential reference Vector::dot satisfies C15's dot rule.",
+            "sizes are compared first; T = num_cpus::get() is used unmodified. The function returns the joined sum itself (accumulator from 0.0, written only by the join loop, nothing post-processes it) and has no other way out than the empty-vector return (no fast path computing the value by another formula); the sequential reference Vector::dot satisfies C15's dot rule.",
     "design_ref": "DESIGN.md §3 C16",
     "note": "Trusted: num_cpus::get() >= 1, thread::scope joins all threads, (T-1)*floor(len/T) <= len. Not decided: the size of the re-association error.",
     "technique": TECH + "symbolic chunk-bound identities, closure capture modes from typeck, callee-set purity, ordered-reduction pattern",
@@ -162,8 +162,8 @@ CHECKS["C10"] = {
             "literal, a leading coefficient, dominated by a zero/magnitude test, or allow-listed by name with its reason (this found x^2 -> NaN); no numerical decision is taken "
             "by the lexicographic order of complex values (this found the Cardano sign defect: x^3 + 8i -> garbage); the triple-root shortcut needs d0 == 0 && d1 == 0; "
             "the snap-to-real test drops the component that was tested small; the Laguerre fallback step cannot vanish; polishing uses the undeflated "
-            "coefficients; deflation is synthetic division.",
-    "design_ref": "DESIGN.md §3 C10",
+            "coefficients; deflation is synthetic division; laguer stops iterating on scale-free tests only (no ordered comparison of a magnitude with a constant).",
+    "design_ref": "DESIGN.md §3 C10, §18",
     "note": "Accuracy (backward error), finiteness in general, matching with the true roots and convergence of Laguerre's iteration are numerical and not decided statically. "
             "One allow-listed divisor symbol: k in cubic_solve.",
     "technique": TECH + "length typing of the result on all paths, dispatch coverage, termination shape, guard-dominated divisor discipline with a one-symbol allow-list, data-flow pattern for deflation",
@@ -185,7 +185,7 @@ CHECKS["C12"] = {
             "with lead(r)/lead(v) at index deg r - deg v; one iteration does q <- q + t and r <- r - t*v with the same t and v (so u = q*v + r is a loop invariant in exact "
             "arithmetic); the cancelled leading coefficient of r is cleared explicitly (absorption test) so that progress does not rely on an exactly-zero rounding residue "
             "(the genuine defect this rule found: [1,1,1]/[49] returned Err); the loop exits on r = 0 or deg r < deg v and returns Ok((q, r))."
-            " The cancelled leading coefficient is removed unconditionally before trim (a value test on the rounding residue, component-wise for Complex, does not guarantee the degree drops). Before the loop polydiv refuses only a zero divisor (no other test turns a valid division into Err).",
+            " The cancelled leading coefficient is removed unconditionally before trim (a value test on the rounding residue, component-wise for Complex, does not guarantee the degree drops). Before the loop polydiv refuses only a zero divisor (no other test turns a valid division into Err), and an Ok returned before the loop is guarded by len u < len v or u = 0.",
     "design_ref": "DESIGN.md §3 C12, §4 no. 7",
     "note": "The size of the rounding error in q and r is not decided; nor is the astronomically unlikely chain of one-ulp residues that could still reach the cap.",
     "technique": TECH + "dominating Err guards, counter-capped loop shape + call-graph termination, term/update pairing, value-independent degree decrease",
@@ -221,7 +221,7 @@ CHECKS["C19"] = {
             "a clone of the same slot; cross-sections use the right axis, argument positions and full range; var_as_matrix is nx x ny with the flat map; 1-D/2-D trapezium use the "
             "two end points / four distinct corners of each cell with the right spacings and weight; interpolation is the linear formula on the bracketed cell, its snapping windows are "
             "literals not larger than 1e-6, and at a cell's end nodes it reduces to the stored nodal value using floating-point-exact simplifications only (never (a/b)*b = a); the writer's record "
-            "(coordinate + nvars values) matches the reader's stride and field order. The writer opens its file truncating it (File::create or OpenOptions with truncate(true)); the reader is accepted in the stride forms `i % stride == 0 / == var+1`, `step_by(stride)` and `vars[i / stride][i % stride - 1]`.",
+            "(coordinate + nvars values) matches the reader's stride and field order. The writer opens its file truncating it (File::create or OpenOptions with truncate(true)); the reader is accepted in the stride forms `i % stride == 0 / == var+1`, `step_by(stride)` and `vars[i / stride][i % stride - 1]`; every placeholder of the writer's format strings (templates of the lowered format_args!, decoded from the typed HIR) is delimited by white space, which is what the reader splits on.",
     "design_ref": "DESIGN.md §3 C19",
     "note": "Exactness of quadrature/interpolation on (bi)linear data between the nodes and the printed-precision round trip are numerical and not decided statically. Grids are strictly increasing (the property's domain). Raw Mesh2D (i,j) indexing is outside the claim.",
     "technique": TECH + "flat-index map discovery + single-fact bounds proofs, accessor guards, corner-set / stride-agreement patterns",
